@@ -753,3 +753,36 @@ class Universe:
         out.append('    ]')
         out.append('}')
         return '\n'.join(out) + '\n'
+
+
+def stress_defs(prefix='K'):
+    """Hand-written definitions that stress the layout-dependent parts of the format (alignment hash
+    threading through arrays, tuples and nested structures; padding inside zero-copy structures;
+    representation attributes), independent of any seed."""
+    P = lambda n: ('ty', Prim(n))
+    A = lambda te, n: ('arr', te, n)
+    defs = []
+    def zs(name, fields, reprs=('C',), align=1, style='named'):
+        d = Def(prefix + name, False, 'zero', list(reprs), align, [], [], [(prefix + name, style, fields)])
+        defs.append(d); return d
+    z1 = zs('Z1', [('a', A(P('u8'), 3)), ('b', P('u32'))])
+    z2 = zs('Z2', [('a', A(P('u16'), 2)), ('b', P('u64')), ('c', P('u8'))])
+    z3 = zs('Z3', [('a', P('u8')), ('b', A(P('u32'), 2)), ('c', P('u16')), ('d', P('u128'))])
+    z4 = zs('Z4', [('f0', A(P('u8'), 5)), ('f1', ('ty', Tuple(Prim('u16'), 2))), ('f2', P('u64'))], style='tuple')
+    t1 = lambda: ('ty', Adt(z1, [], []))
+    z5 = zs('Z5', [('x', t1()), ('y', A(t1(), 2)), ('z', P('u64')), ('w', A(A(P('u8'), 3), 3)), ('v', P('u16'))])
+    z6 = zs('Z6', [('a', P('u8'))], reprs=('C', 'align(32)'), align=32)
+    z7 = zs('Z7', [('a', ('ty', Range('t', Prim('u16')))), ('b', P('f64')), ('c', ('ty', Phantom(Str()))), ('d', P('bool')), ('e', P('char'))])
+    e1 = Def(prefix + 'ZE1', True, 'zero', ['C'], 1, [], [],
+             [('A', 'unit', []), ('B', 'tuple', [('g0', P('u8')), ('g1', P('u64'))]),
+              ('C', 'named', [('x', A(P('u16'), 3)), ('y', P('u32'))])])
+    defs.append(e1)
+    d1 = Def(prefix + 'D1', False, 'none', [], 1, [], [],
+             [(prefix + 'D1', 'named', [('a', ('ty', Adt(z2, [], []))), ('b', ('vec', t1())), ('c', ('opt', A(t1(), 2))),
+                                        ('d', ('ty', Adt(z5, [], []))), ('e', ('ty', Adt(e1, [], [])))])])
+    defs.append(d1)
+    d2 = Def(prefix + 'D2', True, 'deep', [], 1, [], [],
+             [('P', 'tuple', [('g0', A(P('u8'), 3)), ('g1', ('vec', ('ty', Adt(z3, [], []))))]),
+              ('Q', 'named', [('m', ('ty', Adt(z4, [], []))), ('n', ('ty', Str()))]), ('R', 'unit', [])])
+    defs.append(d2)
+    return defs
